@@ -48,10 +48,11 @@ JSON JSON::parse(StringReader& r, bool disable_extensions) {
       if (separator != expected_separator) {
         throw parse_error("string is not a dictionary; pos=" + to_string(r.where()));
       }
+      bool is_first_item = (expected_separator == '{');
       expected_separator = ',';
 
       skip_whitespace_and_comments(r, disable_extensions);
-      if (!disable_extensions && (r.get_s8(false) == '}')) {
+      if ((is_first_item || !disable_extensions) && (r.get_s8(false) == '}')) {
         r.get_s8();
         break;
       }
@@ -77,10 +78,11 @@ JSON JSON::parse(StringReader& r, bool disable_extensions) {
       if (separator != expected_separator) {
         throw parse_error("string is not a list; pos=" + to_string(r.where()));
       }
+      bool is_first_item = (expected_separator == '[');
       expected_separator = ',';
 
       skip_whitespace_and_comments(r, disable_extensions);
-      if (!disable_extensions && (r.get_s8(false) == ']')) {
+      if ((is_first_item || !disable_extensions) && (r.get_s8(false) == ']')) {
         r.get_s8();
         break;
       }
